@@ -738,6 +738,9 @@ fn as_bool(v: &Value) -> Option<bool> {
 
 pub struct C05;
 impl Check for C05 {
+    fn fuzz_runs(&self) -> u64 {
+        80000
+    }
     fn id(&self) -> &'static str {
         "C05"
     }
@@ -1205,6 +1208,9 @@ fn in_sem_universe(v: &JsVal) -> bool {
 
 pub struct C06;
 impl Check for C06 {
+    fn fuzz_runs(&self) -> u64 {
+        150000
+    }
     fn id(&self) -> &'static str {
         "C06"
     }
@@ -1574,6 +1580,9 @@ pub fn object_weight(env: &Env, d: &D, fuel: usize) -> usize {
 
 pub struct C07;
 impl Check for C07 {
+    fn fuzz_runs(&self) -> u64 {
+        30000
+    }
     fn id(&self) -> &'static str {
         "C07"
     }
